@@ -6,6 +6,7 @@ import (
 	"encoding/hex"
 	"encoding/json"
 	"fmt"
+	"os"
 	"strings"
 
 	"tqsim/model"
@@ -288,9 +289,24 @@ func (c *ctx) refConn(d model.Doc, i int) {
 	}
 	k, g := 0, 0
 	before := len(c.out)
+	if os.Getenv("TQSIM_DEBUG") != "" {
+		for _, pr := range preds {
+			fmt.Fprintf(os.Stderr, "DEBUG conn %d pred %s verdict=%s band=%s why=%s goodWrites=%d invs=%d\n", id, hstr(pr.H), pr.Exp.Verdict, pr.Exp.Band, pr.Exp.Why, goodWrites, len(w.invs))
+		}
+	}
 	for _, pr := range preds {
 		if g >= goodWrites {
 			c.r.Probes["pairing-stopped-at-write-fault"]++
+			// replies can no longer be paired; that a rejected packet must not reach a
+			// handler does not depend on any reply
+			if (pr.Exp.Verdict == "terminate" || pr.Exp.Verdict == "badsecret") && k < len(w.invs) && sameRequest(w.invs[k].H, pr.H) {
+				c.vs("C07/rejected-request-handled", pr.Exp.Why, "conn %d: packet %s must be rejected (%s) but a handler ran for it (after a failed write)", id, hstr(pr.H), pr.Exp.Why)
+				if pr.Exp.Verdict == "terminate" {
+					c.vs("C08/dispatched-after-violation", pr.Exp.Why, "conn %d: packet %s violates the sequence rules (%s) but a handler ran", id, hstr(pr.H), pr.Exp.Why)
+				} else {
+					c.v("C19/mismatch-processed", "conn %d: packet %s has the key-mismatch signature but a handler ran (the error packet could not be written)", id, hstr(pr.H))
+				}
+			}
 			return
 		}
 		if len(c.out) > before {
@@ -310,7 +326,7 @@ func (c *ctx) refConn(d model.Doc, i int) {
 		case "terminate", "badsecret":
 			if k < len(w.invs) {
 				// a handler ran for the rejected packet or for one behind it
-				if w.invs[k].H == pr.H {
+				if sameRequest(w.invs[k].H, pr.H) {
 					c.vs("C07/rejected-request-handled", pr.Exp.Why, "conn %d: packet %s must be rejected (%s) but a handler ran for it", id, hstr(pr.H), pr.Exp.Why)
 					if pr.Exp.Verdict == "terminate" {
 						c.vs("C08/dispatched-after-violation", pr.Exp.Why, "conn %d: packet %s violates the sequence rules (%s) but a handler ran", id, hstr(pr.H), pr.Exp.Why)
@@ -376,6 +392,12 @@ func (c *ctx) refConn(d model.Doc, i int) {
 	if complete && quiet && (k < len(w.invs)) {
 		c.v("C07/extra-invocation", "conn %d: %d invocations, model expects %d", id, len(w.invs), k)
 	}
+}
+
+// sameRequest: the header a handler saw is that of the given request (the length field is
+// left out: code that answers a rejected request may have rewritten it in place).
+func sameRequest(a, b model.Header) bool {
+	return a.Session == b.Session && a.Seq == b.Seq && a.Type == b.Type && a.Version == b.Version
 }
 
 func min(a, b int) int {
